@@ -27,3 +27,8 @@ Definition compile_schema (re_ok : str -> bool) (env : enum_env) (path : list st
   if tree_front re_ok env s then write_schema env path name s
   else Err "a declaration of the tree is refused by the front checks, or two properties of one schema share a proto field name".
 
+
+(* the options of a oneof through the compiler: front checks and link step, then members *)
+Definition compile_members (re_ok : str -> bool) (env : enum_env) (ds : list prop) : outcome (list fout) :=
+  obind (compile_object re_ok env (map plain ds)) (fun os => Ok (map as_member os)).
+
